@@ -19,7 +19,7 @@ LANG = roles.LANG
 
 def rule_vm(ck, facts):
     R = "C06.vm"
-    ck.rule(R, "resumed machine, no-plan branch: new rawdata = clone/to_vec of the old machine's rawdata; the swap function uses no copy with a slice-length precondition (copy_from_slice / clone_from_slice) on state buffers")
+    ck.rule(R, "resumed machine, no-plan branch: new rawdata = clone/to_vec of the old machine's rawdata; the swap function uses no copy with a slice-length precondition (copy_from_slice / clone_from_slice) on state buffers; every field of the machine struct that the plain constructor initialises with a constant / fresh container gets the same initial value in the resume function (no interpreter register is inherited from the running machine)")
     lang = facts.crate(LANG)
     cands = [f for f in lang.fns if "::runtime::vm::" in f.path and f.kind == "assoc" and any((callee(t) or "").endswith("build_state_storage_patch_plan") for _, t in f.calls())]
     ck.require(R, len(cands) == 1, "anchor|resume", "expected one VM function calling build_state_storage_patch_plan, found %d" % len(cands))
@@ -65,9 +65,78 @@ def rule_vm(ck, facts):
         ck.ok(R, "length-precondition|none")
 
 
+def _init_summary(f, di, op):
+    r = di.resolve(op)
+    if r[0] == "const":
+        return "constant %s" % r[1][-1]
+    if r[0] == "call":
+        return "call %s" % (callee(r[1]) or "?")
+    if r[0] == "arg":
+        return "argument %d" % r[1]
+    if r[0] == "rv":
+        rv = r[1][5]
+        if rv[0] == "agg":
+            return "aggregate %s" % "::".join(str(x) for x in rv[1][1:] if isinstance(x, str))
+        return "rvalue %s" % rv[0]
+    if r[0] == "place":
+        return "read of %s" % ("the old machine's " + (place_fields(r[1]) or ["?"])[-1].split("::")[-1] if r[1][0] == 1 else "a local place")
+    return "other"
+
+
+def rule_vm_fresh(ck, facts):
+    """the resumed machine starts executing from scratch (link_functions, execute_main): its registers must be those
+    of a freshly built machine"""
+    R = "C06.vm"
+    lang = facts.crate(LANG)
+    res = [f for f in lang.fns if "::runtime::vm::" in f.path and f.kind == "assoc" and any((callee(t) or "").endswith("build_state_storage_patch_plan") for _, t in f.calls())]
+    if len(res) != 1:
+        return
+    f = res[0]
+    self_ty = f.d.get("self_ty", "")
+    adt = None
+    aggs = {}
+    for g in lang.fns:
+        if g.kind != "assoc" or g.d.get("self_ty", "") != self_ty or "::test" in g.path:
+            continue
+        for b, st in g.all_stmts():
+            if st[KIND] == "a" and st[5][0] == "agg" and st[5][1][0] == "adt" and st[5][1][1].endswith("::" + self_ty.split("::")[-1]) and len(st[5][2]) > 3:
+                aggs.setdefault(g.path, (g, st))
+                adt = st[5][1][1]
+    ck.require(R, f.path in aggs and len(aggs) >= 2, "anchor|constructors", "expected the resume function and a plain constructor to build the machine struct (found %d builders)" % len(aggs))
+    if not (f.path in aggs and len(aggs) >= 2):
+        return
+    fields = [x[0] for x in lang.adts[adt]["variants"][0]["f"]]
+    ref_fn, ref_st = [v for k, v in aggs.items() if k != f.path][0]
+    dr, df = DefIndex(ref_fn), DefIndex(f)
+    st = aggs[f.path][1]
+    n = 0
+    for i, name in enumerate(fields):
+        a = _init_summary(ref_fn, dr, ref_st[5][2][i])
+        b = _init_summary(f, df, st[5][2][i])
+        if a.startswith("argument") and b.startswith("argument"):
+            continue
+        n += 1
+        key = "fresh|%s" % name
+        if a == b:
+            ck.ok(R, key, {"field": name, "initial": a})
+        else:
+            ck.bad(R, key, "%s initialises the new machine's `%s` with %s where %s uses %s: the resumed machine runs link_functions/execute_main from scratch like a fresh one, so a register inherited from the running machine (its value in the middle of a tick) shifts where the first frame after the swap reads its inputs / frames" % (f.short, name, b, ref_fn.short, a), f.where(st))
+    ck.floor(R, "machine_fields_compared", n, 12)
+    # after the literal: scalar registers must not be copied over from the old machine either (carried storages are
+    # cloned through a call)
+    new_local = st[4][0]
+    for b, s2 in f.all_stmts():
+        if s2[KIND] != "a" or s2[4][0] != new_local or not s2[4][1] or s2[5][0] != "use" or s2[5][1][0] not in ("cp", "mv"):
+            continue
+        src = s2[5][1][1]
+        if src[0] == 1 and src[1] and src[1][0] == "*":
+            fl = (place_fields(s2[4]) or ["?"])[-1].split("::")[-1]
+            ck.bad(R, "fresh|%s" % fl, "%s copies the scalar `%s` of the running machine into the resumed one (a register of the interpreter in the middle of a tick)" % (f.short, fl), f.where(s2))
+
+
 def rule_wasm(ck, facts):
     R = "C06.wasm"
-    ck.rule(R, "WASM try_hot_swap: old state snapshot precedes the engine replacement; equal-layout branch clones the snapshot; every success path calls set_global_state_data; methods forwarding settings to self.engine are called after the replacement")
+    ck.rule(R, "WASM try_hot_swap: old state snapshot precedes the engine replacement; equal-layout branch clones the snapshot; every success path calls set_global_state_data; methods forwarding settings to self.engine are called after the replacement; a setting that try_hot_swap re-applies from a field of the runtime (the cache) is recorded in that field by every method that writes it to the running engine")
     lang = facts.crate(LANG)
     cands = [f for f in lang.fns if f.short.endswith("::try_hot_swap") and "wasm" in f.path]
     ck.require(R, len(cands) == 1, "anchor|try_hot_swap", "WASM try_hot_swap not found")
@@ -151,12 +220,101 @@ def rule_wasm(ck, facts):
         else:
             ck.bad(R, "after-replace|%s" % name, "try_hot_swap calls %s (which forwards a setting to self.engine) before the engine is replaced: the setting reaches the outgoing engine and the new engine keeps its default" % name, f.where(t))
     ck.floor(R, "engine_forwarding_calls", n, 1)
+    rule_cached_settings(ck, facts, f, rb, dom, self_ty)
+
+
+def _field_stores(g):
+    out = set()
+    for _, s in g.all_stmts():
+        if s[KIND] == "a" and s[4][1]:
+            fl = [x for x in place_fields(s[4]) if x]
+            if fl:
+                out.add(fl[-1])
+    return out
+
+
+def rule_cached_settings(ck, facts, f, rb, dom, self_ty):
+    """a setting the swap re-applies to the new engine is taken from a field of the runtime (the cache); the cache is
+    only as good as its writers: whoever forwards that setting to the engine must also record it"""
+    R = "C06.wasm"
+    di = DefIndex(f)
+    pairs = []
+    for b, t in f.calls():
+        if rb not in dom[b]:
+            continue
+        c = callee(t) or ""
+        g = facts.fn(c)
+        if g is None or g.d.get("self_ty", "") != self_ty or g.path == f.path:
+            continue
+        for a in t[5][1:]:
+            if a[0] not in ("cp", "mv"):
+                continue
+            r = di.resolve(a)
+            pl = r[1] if r[0] == "place" else (a[1] if a[1][1] else None)
+            if pl is None:
+                continue
+            fl = [x for x in place_fields(pl) if x and "::" in x]
+            if fl and self_ty.split("::")[-1] in fl[-1]:
+                cache = fl[-1]
+                engine_fields = sorted(x for x in _field_stores(g) if x != cache and self_ty.split("::")[-1] + "::" not in x)
+                if engine_fields:
+                    pairs.append((cache, g, engine_fields))
+    ck.floor(R, "settings_reapplied_from_cache", len(pairs), 1)
+    lang = facts.crate(LANG)
+    for cache, g, efs in pairs:
+        writers = 0
+        for h in lang.fns:
+            if h.kind == "promoted" or "::test" in h.path or h.d.get("self_ty", "") != self_ty:
+                continue
+            st = _field_stores(h)
+            hit = [e for e in efs if e in st]
+            if not hit:
+                continue
+            writers += 1
+            key = "cached-setting|%s|%s" % (cache.split("::")[-1], h.short.replace(LANG + "::", ""))
+            if cache in st:
+                ck.ok(R, key, {"writer": h.short, "engine_field": hit[0], "cache": cache})
+            else:
+                ck.bad(R, key, "%s writes %s of the running engine but not %s, the copy try_hot_swap re-applies to the new engine: after a swap the new engine gets the stale (default) value, so a program that reads the setting changes its output at the swap" % (h.short, hit[0].split("::", 2)[-1], cache.split("::", 2)[-1]), h.where())
+        ck.floor(R, "writers_of_%s" % efs[0].split("::")[-1], writers, 1)
+        # before anybody has called a setter the two copies are whatever their constructors say: the constant the
+        # runtime's constructor puts into the cache must be the constant a fresh engine state starts with (a prewarmed
+        # engine runs `main` with the engine's default; the swap then re-applies the cache's)
+        def _ctor_const(field):
+            adt, fname = field.rsplit("::", 1)
+            adt = adt.rsplit("::", 1)[0]
+            vals = []
+            for h in lang.fns:
+                if h.kind == "promoted" or "::test" in h.path:
+                    continue
+                for _, s2 in h.all_stmts():
+                    if s2[KIND] == "a" and s2[5][0] == "agg" and s2[5][1][0] == "adt" and s2[5][1][1] == adt:
+                        names = [x[0] for x in lang.adts[adt]["variants"][0]["f"]]
+                        if fname in names and len(s2[5][2]) == len(names):
+                            op = s2[5][2][names.index(fname)]
+                            if op[0] == "c":
+                                v = str(op[-1])
+                                if op[1] == "f" and v.isdigit():
+                                    import struct
+
+                                    v = repr(struct.unpack("<d", struct.pack("<Q", int(v)))[0])
+                                vals.append((v, h, s2))
+            return vals
+        cv, ev = _ctor_const(cache), _ctor_const(efs[0])
+        ck.require(R, bool(cv) and bool(ev), "anchor|initial-%s" % cache.split("::")[-1], "constructors giving %s and %s their initial constants not found" % (cache, efs[0]))
+        if cv and ev:
+            key = "initial-setting|%s" % cache.split("::")[-1]
+            if {v for v, _, _ in cv} == {v for v, _, _ in ev} and len({v for v, _, _ in cv}) == 1:
+                ck.ok(R, key, {"cache_initial": cv[0][0], "engine_initial": ev[0][0]})
+            else:
+                ck.bad(R, key, "before any setter is called the runtime's cached %s is %s (%s) but a fresh engine state starts with %s (%s): globals evaluated by `main` on a fresh / prewarmed engine see one value, the swap then re-applies the other, and the VM's host default is the cache's — `let sr = samplerate` differs between back ends and changes at a swap" % (cache.split("::")[-1], cv[0][0], cv[0][1].short, ev[0][0], ev[0][1].short), ev[0][1].where(ev[0][2]))
 
 
 def run(ck, facts, tier):
     from . import c08
 
     rule_vm(ck, facts)
+    rule_vm_fresh(ck, facts)
     rule_wasm(ck, facts)
     c08.rule_apply(ck, facts)
     # only the converse clause is this property's: equal layouts keep the buffer (the forward clause is C07/C08's)
